@@ -398,10 +398,13 @@ func (c13Engine) Gen(r *core.Rand, tier string, i int) any {
 	switch f := r.Intn(20); {
 	case f < 4 && kids == "none":
 		sc.Enum = "failat"
-		sc.FailKind = core.Pick(r, []string{"", "", "", "epipe"})
+		sc.FailKind = core.Pick(r, []string{"", "", "", "epipe", "eagain"})
 	case f < 7:
 		sc.HasFail = true
 		sc.FailKind = core.Pick(r, []string{"", "", "epipe", "closedpipe"})
+		if kids == "none" && r.Chance(1, 5) {
+			sc.FailKind = "eagain"
+		}
 		sc.FailAt = r.Intn(60)
 		if r.Chance(1, 4) {
 			sc.FailAt = r.Intn(70000)
@@ -413,6 +416,12 @@ func (c13Engine) Gen(r *core.Rand, tier string, i int) any {
 		sc.DevFull = core.Pick(r, []string{"A", "B"})
 	case f < 10:
 		sc.EMFile = core.Pick(r, []string{"A", "B", "C"})
+	}
+	if sc.FailKind == "eagain" {
+		// one failing write, then the descriptor works again: only an unbuffered destination makes
+		// "nothing more is delivered after the failed statement" a consequence of the property (a
+		// buffering writer of the caller may legitimately deliver its buffer at a later flush)
+		sc.Output, sc.FlushFail = "bare", false
 	}
 	if kids == "talkers" && r.Chance(3, 4) {
 		// layer B: straight-line programs under the seeded scheduler (bare sink, fault-free)
@@ -842,6 +851,11 @@ func c13Exec(sc *c13Scn, src string, ops map[int]*c13Op, failAt int, log *core.L
 		sink.FailErr = &os.PathError{Op: "write", Path: "|1", Err: syscall.EPIPE}
 	case "closedpipe":
 		sink.FailErr = io.ErrClosedPipe
+	case "eagain":
+		// a descriptor in non-blocking mode: one write is short and reports EAGAIN, later writes
+		// would succeed - the run has failed all the same, and nothing may be delivered twice
+		sink.FailErr = &os.PathError{Op: "write", Path: "/dev/stdout", Err: syscall.EAGAIN}
+		sink.Transient = true
 	}
 	stderr := core.NewSimSink("stderr", nil)
 	res.FailedAtTrace = -1
